@@ -289,6 +289,98 @@ def job_history(args):
     return rep
 
 
+class Lane:
+    """A worker thread that stays alive between requests (like an idle scheduler worker)."""
+
+    def __init__(self, label):
+        import queue
+        import threading
+        self.inq, self.outq = queue.Queue(), queue.Queue()
+        self.thread = threading.Thread(target=self._loop, name=label, daemon=True)
+        self.thread.start()
+
+    def _loop(self):
+        while True:
+            func = self.inq.get()
+            if func is None:
+                return
+            try:
+                self.outq.put(('ok', func()))
+            except BaseException as exc:  # pylint: disable=broad-except
+                self.outq.put(('raises', exc))
+
+    def call(self, func, timeout):
+        import queue
+        self.inq.put(func)
+        try:
+            return self.outq.get(timeout=timeout)
+        except queue.Empty:
+            return ('hang', None)
+
+    def stop(self):
+        self.inq.put(None)
+
+
+def job_threads(args):
+    """Whatever one thread parsed (and however that ended), another thread of the same process can parse afterwards: thread A,
+    kept alive, parses a prefix; thread B then parses a small complete listing; both under a watchdog."""
+    name, offs = args
+    from valjean.eponine.tripoli4.parse import Parser, ParserException
+    from . import t4gen
+    rep = Report()
+    tmp = tempfile.mkdtemp(prefix='vf_c11t_')
+    path_a, path_b = os.path.join(tmp, 'a.res'), os.path.join(tmp, 'b.res')
+    with open(path_b, 'w', encoding='utf-8') as fil:
+        fil.write(t4gen.render(t4gen.make_spec(neditions=1, nresp=1, nzones=1, negroups=1)))
+    lane_a, lane_b = Lane('A'), Lane('B')
+
+    def parse(path):
+        try:
+            res = Parser(path).parse_from_index(-1)
+            return ('ok', len(res.res.get('list_responses', ())))
+        except ParserException:
+            return ('parser-error',)
+
+    try:
+        data = Files.get(name)
+        ref_b = lane_b.call(lambda: parse(path_b), 4 * WATCHDOG)
+        if ref_b[0] == 'hang':
+            # this process has parsed before (earlier jobs of the pool): whatever they left behind blocks a new thread
+            rep.violate('C11|hang|other-thread-after|earlier-parses', 'a parse of a small complete listing in a new thread never came back '
+                        'after the parses made earlier in this process', {'listing': name, 'threads': True, 'offset': 0})
+            return rep
+        if ref_b != ('ok', ('ok', 1)):
+            rep.violate('HARNESS|c11-threads-reference', f'the small complete listing does not parse in thread B: {ref_b!r}', {'listing': name})
+            return rep
+        for off in offs:
+            with open(path_a, 'wb') as fil:
+                fil.write(data[:off])
+            out_a = lane_a.call(lambda: parse(path_a), WATCHDOG)
+            case = {'listing': name, 'offset': off, 'threads': True}
+            if out_a[0] == 'hang':
+                rep.violate('C11|hang|thread', f'{name} cut at byte {off}: the parse in thread A exceeded the watchdog', case, size=off)
+                break
+            if out_a[0] == 'raises':
+                exc = out_a[1]
+                rep.violate(f'C11|parse-raises|{type(exc).__name__}|{site(exc)}|thread',
+                            f'{name} cut at byte {off}: parse in a worker thread raised {type(exc).__name__}: {exc}', case, size=off)
+            out_b = lane_b.call(lambda: parse(path_b), WATCHDOG)
+            rep.case(nontrivial=('threads', name, off), outcome=('threads', out_a[0] if out_a[0] != 'ok' else out_a[1][0], out_b[0]))
+            if out_b[0] == 'hang':
+                rep.violate('C11|hang|other-thread-after|' + (out_a[1][0] if out_a[0] == 'ok' else out_a[0]),
+                            f'after thread A parsed {name} cut at byte {off} (-> {out_a[1] if out_a[0] == "ok" else out_a[0]}), a parse of a small '
+                            'complete listing in thread B never came back', case, size=off)
+                break                       # both lanes are lost; the finding is recorded
+            if out_b != ref_b:
+                rep.violate('C11|history-dependent|other-thread', f'after thread A parsed {name} cut at byte {off}, thread B gets {out_b!r} '
+                            f'for the small complete listing instead of {ref_b!r}', case, size=off)
+    finally:
+        lane_a.stop()
+        lane_b.stop()
+        shutil.rmtree(tmp, ignore_errors=True)
+    return rep
+
+
 def plan(tier):
     small = sorted(f for f in os.listdir(DATA) if (f.endswith('.res') or f.endswith('.ceav5'))
                    and os.path.getsize(os.path.join(DATA, f)) <= 11000)
@@ -327,6 +419,11 @@ def run(tier, seed):
         hoffs = offs[::step]
         for i in range(0, len(hoffs), 40):
             jobs.append((job_history, (name, hoffs[i:i + 40], other)))
+    # thread dimension: the keyword-line offsets of the small and synthetic listings, parsed in a worker thread that stays alive
+    for name in small + synth:
+        offs = offsets_for(name, tier == 'thorough')
+        for i in range(0, len(offs), 250):
+            jobs.append((job_threads, (name, offs[i:i + 250])))
     rep = pool.pmap(_call, jobs, seed)
     rep.extra['listings'] = [n for n, _ in sel]
     rep.extra['listings_every_byte'] = [n for n, f in sel if f]
@@ -334,6 +431,9 @@ def run(tier, seed):
 
 
 def replay(case):
+    if case.get('threads'):
+        rep = job_threads((case['listing'], [case['offset']]))
+        return {'problems': [(k, v[0]) for k, v in rep.violations.items()], 'violates': bool(rep.violations)}
     signal.signal(signal.SIGALRM, _alarm)
     run_ = Runner()
     try:
